@@ -18,7 +18,7 @@ RULE = (
     "Hypothesis WorldSpecs rendered to real workload/worker YAML files using the randomness sources one by one and combined "
     "(deadline variance, poisson/gamma arrivals, conditionals, runtime variance), >= 2 resource types per pool, EDF/FIFO/LSF "
     "with --scheduler_runtime=0; each spec is run by two fresh `python main.py --random_seed=N` processes with different "
-    "PYTHONHASHSEED, working directories and log paths; the CSV traces are compared line by line after masking input_flag rows "
+    "PYTHONHASHSEED, working directories and log paths (also with --replication_factor 2-3 and --log_file_mode=append); the CSV traces are compared line by line after masking input_flag rows "
     "and the wall-clock field of SCHEDULER_FINISHED. Non-trivial = >= 1 active randomness source and a trace of >= 30 rows; "
     "distinct by case hash."
 )
